@@ -1,7 +1,7 @@
 (** C04: set algebra of the metadata model, correctness of the numeric operators built from the
     BSI's GE / LE, and refutation of roaring's EQ / GT / LT / RANGE across signs. *)
 From Coq Require Import ZArith List Bool Lia.
-From Comet Require Import Base.FBits Base.Parse Base.Sorting Model.BSI Model.Metadata.
+From Comet Require Import Base.FBits Base.Parse Base.Sorting Model.BSI Model.VecIndex Model.Metadata.
 Import ListNotations.
 Open Scope Z_scope.
 
